@@ -100,6 +100,16 @@ func (b *Box) Reset() error {
 	return b.Own()
 }
 
+// ResetAs is Reset with the project directory called name ("" = proj): the directory a spokfile
+// lives in may be called anything the file system allows.
+func (b *Box) ResetAs(name string) error {
+	if name == "" {
+		name = "proj"
+	}
+	b.Proj = filepath.Join(b.Home, name)
+	return b.Reset()
+}
+
 // Own hands everything under sb/ to the sandbox user (after the harness wrote files as root).
 func (b *Box) Own() error {
 	if !b.Drop {
